@@ -17,6 +17,7 @@ import (
 	"sync"
 
 	"github.com/btcsuite/btcd/btcec/v2"
+	"github.com/trustbloc/bbs-signature-go/bbs12381g2pub"
 
 	"github.com/trustbloc/sidetree-go/pkg/jws"
 	"github.com/trustbloc/sidetree-go/pkg/util/pubkey"
@@ -125,6 +126,24 @@ func newKeyNoJWK(seed int64, kt, name string) *Key {
 // newKey deterministically derives a key pair of the given type from (seed, name).
 func newKey(seed int64, kt, name string) *Key {
 	k := &Key{KT: kt, Name: name, Alg: algOf(kt)}
+
+	if kt == "bls" {
+		// a BLS12-381 G2 key (a document key only: nothing is signed with it here); as JWK it is kty EC with x alone
+		pub, priv, err := bbs12381g2pub.GenerateKeyPair(sha256.New, seedBytes(seed, "bls/"+name, 32))
+		if err != nil {
+			panic(fmt.Sprintf("harness: BLS key: %v", err))
+		}
+
+		raw, err := pub.Marshal()
+		if err != nil {
+			panic(fmt.Sprintf("harness: BLS key: %v", err))
+		}
+
+		k.Priv, k.Pub = priv, pub
+		k.JWK = &jws.JWK{Kty: "EC", Crv: "BLS12381_G2", X: b64(raw)}
+
+		return k
+	}
 
 	if kt == "ed" {
 		priv := ed25519.NewKeyFromSeed(seedBytes(seed, "ed/"+name, 32))
